@@ -13,6 +13,11 @@ type Rng struct{ s uint64 }
 
 func NewRng(seed uint64) *Rng { return &Rng{s: seed} }
 
+// (norace: the stream behind crypto/rand.Reader is drawn from by whichever task
+// holds the token; it is harness state, serialised by the token, and must
+// neither be reported nor add happens-before edges between tasks)
+//
+//go:norace
 func (r *Rng) U64() uint64 {
 	r.s += 0x9e3779b97f4a7c15
 	z := r.s
